@@ -55,7 +55,35 @@ impl Reader {
 // BTreeMap<EntityId, Reader>: opaque; the ghost view records which readers were looked up for
 // delivery (used for the converse "unprotected traffic keeps flowing")
 #[verifier::external_body] pub struct ReaderMap { p: u8 }
-impl ReaderMap { pub uninterp spec fn lookups(&self) -> Seq<EntityId>; }
+impl ReaderMap {
+    pub uninterp spec fn lookups(&self) -> Seq<EntityId>;
+    // BTreeMap::values() and the iterator adapters the receiver uses on it (which readers exist is
+    // not modelled: the adapters return arbitrary elements, `find` only ones its predicate accepted)
+    #[verifier::external_body] pub fn values(&self) -> ReaderValues<'_> { unimplemented!() }
+}
+#[verifier::external_body] pub struct ReaderValues<'a> { p: &'a u8 }
+#[verifier::external_body] #[verifier::reject_recursive_types(P)] pub struct ReaderFilter<'a, P> { p: &'a u8, q: P }
+#[verifier::external_body] #[verifier::reject_recursive_types(P)] #[verifier::reject_recursive_types(F)] pub struct ReaderFilterMap<'a, P, F> { p: &'a u8, q: P, f: F }
+impl<'a> ReaderValues<'a> {
+    #[verifier::external_body]
+    pub fn filter<P: Fn(&&'a Reader) -> bool>(self, predicate: P) -> ReaderFilter<'a, P>
+        requires forall|r: &&'a Reader| predicate.requires((r,))
+    { unimplemented!() }
+    #[verifier::external_body]
+    pub fn find<P: Fn(&&'a Reader) -> bool>(&mut self, predicate: P) -> (o: Option<&'a Reader>)
+        requires forall|r: &&'a Reader| predicate.requires((r,))
+        ensures o matches Some(rd) ==> predicate.ensures((&rd,), true)
+    { unimplemented!() }
+}
+impl<'a, P: Fn(&&'a Reader) -> bool> ReaderFilter<'a, P> {
+    #[verifier::external_body]
+    pub fn map<F: Fn(&'a Reader) -> EntityId>(self, f: F) -> ReaderFilterMap<'a, P, F>
+        requires forall|r: &'a Reader| f.requires((r,))
+    { unimplemented!() }
+}
+impl<'a, P: Fn(&&'a Reader) -> bool, F: Fn(&'a Reader) -> EntityId> ReaderFilterMap<'a, P, F> {
+    #[verifier::external_body] pub fn collect(self) -> Vec<EntityId> { unimplemented!() }
+}
 
 // mio_extras::channel::{SyncSender, TrySendError}
 pub enum TrySendError<T> { Io(IoError), Full(T), Disconnected(T) }
